@@ -77,6 +77,12 @@ META = {
         level_note="The premise (V is valid) is established per case by a reference node fed parents-first; cases where it rejects are discarded and counted. Retry goes through the hook calling the real admission path.",
         technique="property-based testing: schedule/permutation enumeration + rapid schedules, differential against parents-first delivery",
     ),
+    "C07": dict(
+        level_text="Each case performs one or two real truncations of a generated two-node ledger (>=1001 filler vertices each) and compares per-tip per-address balances across the cut, by-hash reads, moved == checkpointed, checkpoint funds == net flow of checkpointed vertices, refusal of re-submissions with unchanged snapshot, and the twin node's decisions on follow-ups.",
+        design_ref="DESIGN.md §4 C07",
+        level_note="A truncation error is accepted only when some tip has fewer than 1000 live ancestors (premise of the call) and then the ledger must be unchanged. Addresses whose true checkpointed net is negative (genesis issuer) are excluded from the funds equality. 'Truncation racing with proposals' is only sampled by C18.",
+        technique="stateful property-based testing (rapid) with a twin-node differential and before/after metamorphic relations",
+    ),
 }
 
 def _na():
